@@ -224,5 +224,7 @@ CLAUSES = [
            'significant digits). Non-trivial = >= 2 species and a keyword name / 3-digit count / 15-char name / 4 elements',
            quick_shards=4),
 ]
+# coverage-guided campaigns of the thorough tier: (clause, executions per worker, workers)
+FUZZ = [('C05.file', 4000, 4)]
 ASSUMPTIONS = ['names contain no blank and do not start with "!" (the format\'s comment marker)',
                'the reference parser follows the Chemkin-II thermo card layout']
